@@ -441,6 +441,45 @@ def scope_problems(body):
     return problems
 
 
+TID_USES = ["std::vector<T>", "const std::map<string, T>&", "std::pair<int, T>", "std::vector<std::vector<T*>>", "T", "const T&", "std::vector<T::Value>"]
+
+
+def c09_template_id_arguments(use: int, role: int, how: int) -> bool:
+    """
+    A template parameter instantiated with a type that is itself a template-id (`ns::Box<double>`, via an instantiation
+    list or a typedef) and used bare or nested in other template arguments, in a parameter, a return type, a property or the
+    base class: every mention of the class template `ns::Box` in the translation unit carries its template arguments.
+    pre: 0 <= use < len(TID_USES) and 0 <= role <= 4 and 0 <= how <= 1
+    post: _
+    """
+    use, role, how = pick(use, 0, len(TID_USES)), pick(role, 0, 5), pick(how, 0, 2)
+    with concrete():
+        u = TID_USES[use]
+        head = "template<T = {ns::Box<double>}> " if how == 0 else "template<T> "
+        member = ["Holder(%s a);" % u, "void put(%s a, int n) const;" % u, "%s get() const;" % u.replace("const ", "").rstrip("&"), "static void Make(%s a);" % u,
+                  "%s item;" % u.replace("const ", "").rstrip("&")][role]
+        base = " : ns::Base<T>" if (use + role) % 2 else ""
+        text = ("namespace ns { template<V> class Box { Box(); }; class Plain { Plain(); }; }\n"
+                "namespace top { %sclass Holder%s { Holder(); %s }; %s }" % (head, base, member, "typedef top::Holder<ns::Box<double>> HolderBox;" if how else ""))
+        problems = []
+        try:
+            out = pipe.pybind(text)
+        except Exception as ex:
+            out = ""
+            problems.append("raised %r" % ex)
+        body = out.split("//BEGIN-WRAPPED\n", 1)[-1]
+        bare = re.findall(r"ns::Box(?!<double>)[^\n]{0,30}", body)
+        if bare:
+            problems.append("class template ns::Box named without its template arguments: %r" % bare[:3])
+        if out and not readers.balanced(out):
+            problems.append("unbalanced translation unit")
+        if out and re.search(r"(?<![A-Za-z0-9_:])T(?![A-Za-z0-9_])", re.sub(r'"(?:[^"\\\\]|\\\\.)*"', '""', body)):
+            problems.append("an unsubstituted template parameter T remains")
+        ok = not problems or _fail(text=text, problems=problems, body=body[-500:])
+    reached({"use": TID_USES[use], "role": role, "how": how})
+    return ok
+
+
 def c09_second_unit(a: int, b: int, boost: int, top: int) -> bool:
     """
     One wrapper object producing two translation units in a row (as `wrap()` does for main + sub-modules): the SECOND
@@ -489,6 +528,8 @@ def conds(tier):
                 bounds="15 subsets of 4 serializable classes (plain, 2- and 3-parameter templates, nested template argument) x namespace depth"),
         xh.Cond(M, "c09_ignore_scopes", t(300, 1200), kind=sb, examples=["sel=8, form=1", "sel=40, form=2", "sel=127, form=0"],
                 bounds="128 subsets of 7 classes on the ignore list x %s" % ("3 spellings" if not q else "spelling derived (shifted against C03's derivation)")),
+        xh.Cond(M, "c09_template_id_arguments", t(200, 600), kind=sb, examples=["use=0, role=1, how=0", "use=3, role=2, how=1", "use=6, role=0, how=0", "use=1, role=4, how=1"],
+                bounds="%d uses of a parameter instantiated with a template-id x 5 member roles x {instantiation list, typedef}" % len(TID_USES)),
         xh.Cond(M, "c09_second_unit", t(200, 600), kind=sb, examples=["a=0, b=1, boost=0, top=0", "a=3, b=0, boost=1, top=1", "a=2, b=2, boost=0, top=2"],
                 bounds="%d x %d texts with overlapping namespace names wrapped in sequence by one wrapper x serialization x 3 top namespaces" % (NUT, NUT)),
         xh.Cond(M, "c09_variables", t(300, 900), kind=sb, examples=["d=1, t=0, depth=1, topdepth=0", "d=3, t=2, depth=3, topdepth=2", "d=0, t=4, depth=2, topdepth=1"],
